@@ -5,7 +5,8 @@ import ast
 
 from ..cfg import always_raises
 from ..core import AnalysisError, FunctionInfo, calls_in, call_name, dotted, unparse, walk_no_nested
-from ..match import if_chain, returns_of
+from ..facts import return_facts, show
+from ..match import canon, if_chain, returns_of
 from ..report import Ctx
 
 LEVEL = "other"
@@ -157,36 +158,27 @@ def r2_replay_agreement(ctx: Ctx) -> None:
 def r3_lookup_chain(ctx: Ctx) -> None:
     vf = ctx.repo.func(SYMBOLS, "Scope.value_for")
     sym = vf.params()[1]
-    deleg = [c for c in calls_in(vf.node) if call_name(c) == "self.parent.value_for"]
-    if len(deleg) != 1:
-        ctx.fail("Scope.value_for:delegation", f"expected one delegation to the parent, found {len(deleg)}")
-    else:
-        # find the If whose else-branch holds the delegation and whose test is local membership
-        ok = False
-        for s in walk_no_nested(vf.node):
-            if isinstance(s, ast.If) and any(x is deleg[0] for o in s.orelse for x in ast.walk(o)) and not any(x is deleg[0] for b in s.body for x in ast.walk(b) if not isinstance(b, ast.If)):
-                t = unparse(s.test)
-                local = (f"{sym} in self.symbols" in t and f"{sym} in self.code_symbols" in t and " or " in t)
-                ret_local = any(isinstance(b, ast.Return) and unparse(b.value) == f"self[{sym}]" for b in s.body)
-                if local and ret_local:
-                    ok = True
-        ctx.check(ok, "Scope.value_for:local-first", "a name defined in this scope wins; only otherwise is the parent consulted (innermost definition)")
-        ctx.check([unparse(a) for a in deleg[0].args] == [sym], "Scope.value_for:same-name", "the parent is asked for the same name")
-    root = [r for r in returns_of(vf.node) if unparse(r.value) == f"self[{sym}]"]
-    ctx.check(len(root) >= 2, "Scope.value_for:root", "the root scope answers from its own tables (and raises when absent)")
+    if any(isinstance(n, (ast.While, ast.For)) for n in walk_no_nested(vf.node)):
+        raise AnalysisError("Scope.value_for walks the scope chain with a loop; the recursive lookup facts cannot be read off")
+    vff = return_facts(vf)
+    deleg = [(v, c) for v, c in vff if v == f"self.parent.value_for({sym})"]
+    own = [(v, c) for v, c in vff if v == f"self[{sym}]"]
+    ctx.check(len(deleg) >= 1 and len(deleg) + len(own) == len(vff), "Scope.value_for:delegation", f"the only results are this scope's own entry and the parent's answer for the same name; found: {show(vff)}")
+    local_true = f"{sym} in self.symbols or {sym} in self.code_symbols"
+    def not_local(c: frozenset) -> bool:
+        return (local_true, False) in c or ((f"{sym} in self.symbols", False) in c and (f"{sym} in self.code_symbols", False) in c)
+    def is_local(c: frozenset) -> bool:
+        return (local_true, True) in c
+    ok = all(not_local(c) and ("self.parent", True) in c for _v, c in deleg) and all(is_local(c) or ("self.parent", False) in c for _v, c in own)
+    ctx.check(ok, "Scope.value_for:local-first", f"a name defined in this scope wins; only otherwise is the parent consulted (innermost definition); found: {show(vff)}")
+    ctx.check(any(("self.parent", False) in c for _v, c in own), "Scope.value_for:root", "the root scope answers from its own tables (and raises when absent)")
     gi = ctx.repo.func(SYMBOLS, "Scope.__getitem__")
     raises = [n for n in walk_no_nested(gi.node) if isinstance(n, ast.Raise)]
     ctx.check(len(raises) == 1 and "SymbolNotDefined" in unparse(raises[0]), "Scope.__getitem__:undefined", "an undefined name raises SymbolNotDefined")
     reads = [unparse(r.value) for r in returns_of(gi.node)]
     ctx.check(reads == [f"self.code_symbols[{gi.params()[1]}]", f"self.symbols[{gi.params()[1]}]"], "Scope.__getitem__:tables", f"reads this scope's own tables; found {reads}")
     gt = ctx.repo.func(SYMBOLS, "Scope.get_table")
-    ok = False
-    for s in walk_no_nested(gt.node):
-        if isinstance(s, ast.If) and unparse(s.test) == "self.table is None":
-            own = [unparse(r.value) for o in s.orelse for r in ast.walk(o) if isinstance(r, ast.Return)]
-            par = [unparse(r.value) for b in s.body for r in ast.walk(b) if isinstance(r, ast.Return)]
-            ok = own == ["self.table"] and "self.parent.get_table()" in par
-    ctx.check(ok, "Scope.get_table:own-first", "a scope's own table wins, else the enclosing scope's")
+    ctx.check(get_table_own_first(gt), "Scope.get_table:own-first", f"a scope's own table wins, else the enclosing scope's; found: {show(return_facts(gt))}")
     # `if self.parent:` decides "is there an enclosing scope": scopes must not define their own truthiness
     for ci in [ctx.repo.cls(SYMBOLS, "Scope")] + ctx.repo.subclasses(ctx.repo.cls(SYMBOLS, "Scope")):
         for dunder in ("__len__", "__bool__"):
@@ -205,21 +197,24 @@ def r3_lookup_chain(ctx: Ctx) -> None:
     ctx.count("lookup_facts", 7)
 
 
+def get_table_own_first(gt) -> bool:
+    f = return_facts(gt)
+    own = [(v, c) for v, c in f if v == "self.table"]
+    par = [(v, c) for v, c in f if v == "self.parent.get_table()"]
+    none = [(v, c) for v, c in f if v == "None"]
+    return (len(own) >= 1 and len(par) >= 1 and len(own) + len(par) + len(none) == len(f)
+            and all(("self.table is None", False) in c for _v, c in own)
+            and all(("self.table is None", True) in c and ("self.parent", True) in c for _v, c in par)
+            and all(("self.table is None", True) in c for _v, c in none))
+
+
 def r4_export(ctx: Ctx) -> None:
     rs = ctx.repo.func(SYMBOLS, "Resolver.restore_scope")
     exp_if = [s for s in rs.node.body if isinstance(s, ast.If) and "exports" in unparse(s.test)]
-    ok = len(exp_if) == 1 and unparse(exp_if[0].test) == "exports and isinstance(self.current_scope, NamedScope)"
+    ok = len(exp_if) == 1 and canon(rs.node, exp_if[0].test) == "exports and isinstance(self.current_scope, NamedScope)"
     ctx.check(ok, "Resolver.restore_scope:export-condition", "exports happen for named scopes only, when requested")
-    if exp_if:
-        upd = [n for n in walk_no_nested(exp_if[0]) if isinstance(n, ast.AugAssign) and isinstance(n.op, ast.BitOr)]
-        good = False
-        if len(upd) == 1 and isinstance(upd[0].value, ast.DictComp):
-            dc = upd[0].value
-            gen = dc.generators[0]
-            kv = [unparse(e) for e in gen.target.elts] if isinstance(gen.target, ast.Tuple) else []
-            good = (unparse(upd[0].target) == "scope.parent.symbols" and unparse(gen.iter) == "scope.symbols.items()" and len(kv) == 2
-                    and unparse(dc.key) == f"f'{{scope.name}}.{{{kv[0]}}}'" and unparse(dc.value) == kv[1] and not gen.ifs)
-        ctx.check(good, "Resolver.restore_scope:export", "every symbol k of the scope becomes `name.k` with the same value in the enclosing scope")
+    good = _export_form(rs)
+    ctx.check(good, "Resolver.restore_scope:export", "every symbol k of the scope becomes `name.k` with the same value in the enclosing scope")
     tail = [s for s in rs.node.body if isinstance(s, ast.If) and unparse(s.test) == "self.current_scope.parent is not None"]
     ok = len(tail) == 1 and [unparse(b) for b in tail[0].body] == ["self.current_scope = self.current_scope.parent"] and always_raises(tail[0].orelse)
     ctx.check(ok, "Resolver.restore_scope:pop", "leaves to the parent scope; leaving the root raises")
@@ -232,6 +227,33 @@ def r4_export(ctx: Ctx) -> None:
     p = al.params()
     ctx.check(body == [f"self.labels[{p[1]}] = {p[2]}.logical_value", f"self.add_symbol({p[1]}, {p[2]}.logical_value)"], "Scope.add_label", "a label is also a symbol with its logical address")
     ctx.count("export_facts", 5)
+
+
+def _export_form(rs) -> bool:
+    """parent.symbols receives f"{scope.name}.{k}" -> v for every (k, v) of scope.symbols, as `|=`/update of a dict comprehension or as a for loop"""
+    fn = rs.node
+    scope = "self.current_scope"
+    def c(e: ast.AST) -> str:
+        return canon(fn, e)
+    for n in walk_no_nested(fn):
+        comp = None
+        if isinstance(n, ast.AugAssign) and isinstance(n.op, ast.BitOr) and isinstance(n.value, ast.DictComp):
+            tgt, comp = c(n.target), n.value
+        if isinstance(n, ast.Call) and isinstance(n.func, ast.Attribute) and n.func.attr == "update" and n.args and isinstance(n.args[0], ast.DictComp):
+            tgt, comp = c(n.func.value), n.args[0]
+        if comp is not None:
+            gen = comp.generators[0]
+            kv = [unparse(e) for e in gen.target.elts] if isinstance(gen.target, ast.Tuple) else []
+            if (tgt == f"{scope}.parent.symbols" and c(gen.iter) == f"{scope}.symbols.items()" and len(kv) == 2 and not gen.ifs
+                    and c(comp.key) == f"f'{{{scope}.name}}.{{{kv[0]}}}'" and unparse(comp.value) == kv[1]):
+                return True
+        if isinstance(n, ast.For) and c(n.iter) == f"{scope}.symbols.items()" and isinstance(n.target, ast.Tuple) and len(n.target.elts) == 2:
+            kv = [unparse(e) for e in n.target.elts]
+            for st in n.body:
+                if isinstance(st, ast.Assign) and isinstance(st.targets[0], ast.Subscript) and c(st.targets[0].value) == f"{scope}.parent.symbols" \
+                        and c(st.targets[0].slice) == f"f'{{{scope}.name}}.{{{kv[0]}}}'" and unparse(st.value) == kv[1] and len(n.body) == 1:
+                    return True
+    return False
 
 
 def r5_who_may_write(ctx: Ctx) -> None:
